@@ -158,6 +158,19 @@ def check_partition_set(desc: dict[str, Any], raw: dict[int, Any], numbered: dic
                                               f"rank {r} part {pid}: send data holds "
                                               f"{type(node).__name__}", wit)
                 col.count("mon.names_read", len(read_ph))
+                # --- sharing: the rank's graph was duplicate-free, so is every part (a
+                # replaced input is ONE placeholder however many users it has)
+                try:
+                    exprs = {n: p.name_to_output[n] for n in part.output_names
+                             if n in p.name_to_output}
+                    if exprs and reflect.duplicate_groups(
+                            pt.make_dict_of_named_arrays(exprs)) > 0:
+                        col.violation("C09:part-holds-duplicate-nodes",
+                                      f"rank {r} part {pid}: structurally equal distinct nodes "
+                                      "inside one part (sharing of a replaced input lost)", wit)
+                    col.count("mon.part_sharing")
+                except Exception as e:  # noqa: BLE001
+                    col.histo("part_sharing_unavailable", type(e).__name__)
                 declared = set(part.user_input_names) | set(part.partition_input_names)
                 if read_ph != declared:
                     col.violation("C09:declared-inputs-differ-from-names-read",
